@@ -5,6 +5,7 @@ CONSTANTS
   Data <- DataA
   NumberMode = "conforming"
   MaxCalls = 4
+  GenTextIdx <- Idx2
   Depth = 4
 INIT HInit
 NEXT HNext
